@@ -37,15 +37,19 @@ class SDict(dict):
     pass
 
 
-def _copy_container(v, depth=2):
+def _copy_container(v, depth=2, memo=None, odepth=2):
+    """Copy of a container (two levels); elements stay the real objects, but repository objects among them get
+    their own attribute snapshot in `memo` (reachable through was(old, obj))."""
     if isinstance(v, list):
-        r = SList((_copy_container(x, depth - 1) if depth > 1 else x) for x in v)
+        r = SList((_copy_container(x, depth - 1, memo, odepth) if depth > 1 else x) for x in v)
         r.orig_id__ = getattr(v, 'orig_id__', id(v))
         return r
     if isinstance(v, dict):
-        r = SDict((k, (_copy_container(x, depth - 1) if depth > 1 else x)) for k, x in v.items())
+        r = SDict((k, (_copy_container(x, depth - 1, memo, odepth) if depth > 1 else x)) for k, x in v.items())
         r.orig_id__ = getattr(v, 'orig_id__', id(v))
         return r
+    if memo is not None and odepth > 0 and _is_repo_obj(v) and id(v) not in memo:
+        snapshot(v, memo, odepth)
     return v
 
 
@@ -68,7 +72,7 @@ def _is_repo_obj(v):
 def snapshot(v, memo=None, depth=3):
     memo = {} if memo is None else memo
     if isinstance(v, (list, dict)):
-        return _copy_container(v)
+        return _copy_container(v, 2, memo, depth)
     if isinstance(v, type):
         if hasattr(v, '_components'):
             if id(v) in memo:
@@ -98,7 +102,7 @@ def snapshot(v, memo=None, depth=3):
         except AttributeError:
             continue
         if isinstance(x, (list, dict)):
-            setattr(s, n, _copy_container(x))
+            setattr(s, n, _copy_container(x, 2, memo, depth - 1))
         elif _is_repo_obj(x):
             setattr(s, n, snapshot(x, memo, depth - 1))
         else:
@@ -279,6 +283,7 @@ def make_wrapper(key, cands, real, props):
         memo = {}
         old = S.Old(**{k: snapshot(v, memo) for k, v in env.items()})
         _collect_ids(tuple(env.values()), old.ids__)
+        old.snaps__ = memo
         fp_before = None
         if c.raises:
             fp_before = fingerprint(tuple(env.values()))
